@@ -83,6 +83,8 @@ struct Solvers {
   void make(const geodtab::Ell& E) { if (ge) return; if (E.series) gs.reset(new Geodesic(E.a, E.f)); ge.reset(new GeodesicExact(E.a, E.f)); gx.reset(new Geodesic(E.a, E.f, true)); }
   DOut d(int sv, int form, bool arc, double a, double b, double c, double len) const { return sv == 0 ? dcall(*gs, form, arc, a, b, c, len) : (sv == 1 ? dcall(*ge, form, arc, a, b, c, len) : dcall(*gx, form, arc, a, b, c, len)); }
   IOut i(int sv, int form, double a, double b, double c, double d_) const { return sv == 0 ? icall(*gs, form, a, b, c, d_) : (sv == 1 ? icall(*ge, form, a, b, c, d_) : icall(*gx, form, a, b, c, d_)); }
+  template <class G> static void mid_(const G& g, double a, double b, double c, double d_, double& la, double& lo) { auto l = g.InverseLine(a, b, c, d_, Geodesic::ALL); l.Position(0.5 * l.Distance(), la, lo); }
+  void mid(int sv, double a, double b, double c, double d_, double& la, double& lo) const { if (sv == 0) mid_(*gs, a, b, c, d_, la, lo); else if (sv == 1) mid_(*ge, a, b, c, d_, la, lo); else mid_(*gx, a, b, c, d_, la, lo); }
   double area(int sv) const { return sv == 0 ? gs->EllipsoidArea() : (sv == 1 ? ge->EllipsoidArea() : gx->EllipsoidArea()); }
 };
 static const char* svname(int sv) { return sv == 0 ? "series" : (sv == 1 ? "exact" : "exact=true"); }
@@ -164,11 +166,11 @@ int main(int argc, char** argv) {
         for (size_t k : ord) { if ((dir > 0) != (L[k].s >= 0)) continue; tr.advance(L[k].s / E.e.a); last = L[k].s; L[k].p = tr.point(); ++ntraj; L[k].a12deg = geod_ode::dist_to_arc<ld>(E.e, L[k].p) / D; lasta = L[k].a12deg; }
         if (last != 0) {                                       // oracle self check (second order / step size), Jacobi fields and area included
           Point<ld> p1 = tr.point(), p2 = geod_ode::follow<ld>(E.e, lat1, azi1, last, true, 38, 1e-23L, 0.6L);
-          ld sc = std::max<ld>(std::max<ld>(1, fabsl(last) / (2 * E.Q)), fabsl(lasta) / 180), tp = std::min(tolpos(E, 0), tolpos(E, 1)) * sc, ta = std::min(tolarea(E, 0), tolarea(E, 1)) * sc;
+          ld sc = std::max<ld>(std::max<ld>(1, fabsl(last) / (2 * E.Q)), fabsl(lasta) / 180), tp = std::min(tolpos(E, 0), tolpos(E, 1)) * sc, ta = std::min(tolS12(E, 0, sc, hypotl(p1.r[0], p1.r[1])), tolS12(E, 1, sc, hypotl(p1.r[0], p1.r[1])));   // (same conditioning term as the predicate)
           ld cond = std::max<ld>(std::max<ld>(1, fabsl(p1.m12) / E.e.a), std::max(fabsl(p1.M12), fabsl(p1.M21)));
           ld rel = std::max(std::max(fabsl(p1.m12 - p2.m12) / (2 * tp * cond), E.e.a * std::max(fabsl(p1.M12 - p2.M12), fabsl(p1.M21 - p2.M21)) / (2 * tp * cond * kappa(E))), p1.meridional ? 0 : fabsl(p1.S12 - p2.S12) / ta);
           ctx.worstf("oracle.two_stepsizes.err_over_tol", (double)rel, [&] { return E.name + " lat1=" + fmt(lat1) + " azi1=" + fmt(azi1) + " s12=" + fmtl(last); });
-          if (!(rel < 0.25)) { fprintf(stderr, "oracle self-check failed: %s lat1=%g azi1=%g s=%Lg rel=%Lg\n", E.name.c_str(), lat1, azi1, last, rel); return 2; }   // (long double round-off times the growth of the Jacobi fields over 7 circuits reaches a few % of the bound)
+          if (!(rel < 0.25)) { fprintf(stderr, "oracle self-check failed: %s lat1=%g azi1=%g s=%.12Lg rel=%Lg dm12=%Lg dM12=%Lg dM21=%Lg dS12=%Lg cond=%Lg sc=%Lg dir=%d n=%zu lat1=%.17g\n", E.name.c_str(), lat1, azi1, last, rel, p1.m12 - p2.m12, p1.M12 - p2.M12, p1.M21 - p2.M21, p1.S12 - p2.S12, cond, sc, dir, L.size(), lat1); for (size_t k : ord) fprintf(stderr, " %.10Lg", L[k].s); fprintf(stderr, "\n"); return 2; }   // (long double round-off times the growth of the Jacobi fields over 7 circuits reaches a few % of the bound)
         }
       }
       for (size_t k = 0; k < L.size(); ++k) {
@@ -250,12 +252,12 @@ int main(int argc, char** argv) {
   ctx.sub("inverse");
   ctx.bound("inverse.pairs", T ? "the C02 pair lattice (models/geod_lattice.hpp: grid 13500 from 3 anchor meridians + astroid 25x25 and strip from 10 base latitudes 7150 + short 2464 + equatorial 45) per ellipsoid, 33 ellipsoids"
                                : "the C02 pair lattice with the 5x5 astroid grid, 8 ellipsoids");
-  ctx.bound("inverse.config", "{series, exact, exact=true} x {GenInverse, InverseLine + GenPosition(Distance())}; ends swapped for the reversal rules");
+  ctx.bound("inverse.config", "{series, exact, exact=true} x {GenInverse, InverseLine + GenPosition(Distance())}; ends swapped for the reversal rules; midpoint M of the returned geodesic: S12(A,B) = S12(A,M) + S12(M,B) from three GenInverse calls");
   for (size_t ei = 0; ei < ells.size(); ++ei) {
     const geodtab::Ell& E = ells[ei];
     if (!T && !E.quick) continue;
     Solvers S;
-    const std::vector<geodlat::Pair> pairs = geodlat::inverse_pairs(E, T);
+    const std::vector<geodlat::Pair> pairs = geodlat::inverse_pairs(E, T ? 1 : 0);
     for (size_t pi = 0; pi < pairs.size(); ++pi) {
       if (!ctx.take()) continue;
       S.make(E);
@@ -277,7 +279,7 @@ int main(int argc, char** argv) {
           auto bad = [&](const char* kind, const std::string& msg) {
             char inp[160]; snprintf(inp, sizeof inp, "%.12g %.12g %.12g %.12g", P.lat1, P.lon1, P.lat2, P.lon2);
             const bool nearanti = R.a12 >= 179.9 || l12 >= 179.9L;
-            ctx.fail(key((std::string(kind) + ":" + msg.substr(0, 3)).c_str()), where() + ": " + msg, {{"kind", kind}, {"ell", E.name}, {"solver", svn}, {"family", std::string(1, P.fam)}, {"input", inp}, {"regime", nearanti ? "near-antipodal" : "general"}, {"form", form ? "InverseLine" : "Inverse"}});
+            ctx.fail(key((std::string(kind) + ":" + msg.substr(0, 3)).c_str()), where() + ": " + msg, {{"kind", kind}, {"ell", E.name}, {"solver", svn}, {"family", std::string(1, P.fam)}, {"input", inp}, {"regime", geodlat::pair_regime(E, P, R.a12)}, {"form", form ? "InverseLine" : "Inverse"}});
           };
           bool fin = true; for (double x : {R.s12, R.azi1, R.azi2, R.m12, R.M12, R.M21, R.S12}) if (!std::isfinite(x) || x == SENT) fin = false;
           if (!fin) { bad("nonfinite", "m12=" + fmt(R.m12) + " M12=" + fmt(R.M12) + " M21=" + fmt(R.M21) + " S12=" + fmt(R.S12)); continue; }
@@ -303,6 +305,27 @@ int main(int argc, char** argv) {
           } else ctx.count("inverse.S12.skipped_free_azimuth");
           if (ctx.want_sample() && form == 0 && P.fam == 'a') ctx.sample(where() + " -> m12=" + fmt(R.m12) + " M12=" + fmt(R.M12) + " S12=" + fmt(R.S12) + " | oracle m12=" + fmtl(p.m12) + " S12=" + fmtl(p.S12));
         }
+        // ---- midpoint additivity, oracle-free and well conditioned: the end points are given exactly, so S12(A,B) is well defined even
+        //      next to a pole.  M = midpoint of the returned geodesic (InverseLine + Position(s12/2)); S12(A,B) = S12(A,M) + S12(M,B),
+        //      all three from GenInverse.  The meridian of M cancels; what remains is the sliver A-M-B (M is within the position bound
+        //      of the geodesic: area <= s12 tolpos / 2) and the conditioning at M alone (c2 tolpos / rho(M)).
+        if (l12 != 180) {
+          Ctx::Case cs(ctx);
+          double laM = SENT, loM = SENT; S.mid(sv, P.lat1, P.lon1, P.lat2, P.lon2, laM, loM);
+          IOut a = S.i(sv, 0, P.lat1, P.lon1, laM, loM), b = S.i(sv, 0, laM, loM, P.lat2, P.lon2); ncalls += 3;
+          const ld tp = tolpos(E, sv), rM = rho_of(E, laM);
+          const ld tl = 3 * tolarea(E, sv) + E.e.c2() * (rM > tp / 6.3L ? tp / rM : 6.3L) + fabsl((ld)base.s12) * tp / 2;
+          ld e = fabsl((ld)base.S12 - ((ld)a.S12 + (ld)b.S12));
+          auto where = [&] { return E.name + " " + fx(P.lat1) + " " + fx(P.lon1) + " " + fx(P.lat2) + " " + fx(P.lon2) + " fam=" + P.fam + " " + svn + " M=(" + fx(laM) + "," + fx(loM) + ")"; };
+          if (!std::isfinite((double)e)) e = INFINITY;
+          ctx.worstf(std::string("midpoint.S12.err_over_tol.") + svn, (double)(e / tl), where);
+          if (!(e <= tl)) {
+            char inp[160]; snprintf(inp, sizeof inp, "%.12g %.12g %.12g %.12g", P.lat1, P.lon1, P.lat2, P.lon2);
+            const bool nearanti = base.a12 >= 179.9 || l12 >= 179.9L;
+            ctx.fail("e" + std::to_string(ei) + "/p" + std::to_string(pi) + "/" + svn + "/midS12", where() + ": S12(A,B) = " + fx(base.S12) + " but S12(A,M) + S12(M,B) = " + fx(a.S12) + " + " + fx(b.S12) + " (difference " + fmtl(e) + " m^2, tol " + fmtl(tl) + ")",
+                     {{"kind", (nearanti && e <= 64 * tl) ? "antipodal-accuracy" : "midpoint-S12"}, {"ell", E.name}, {"solver", svn}, {"family", std::string(1, P.fam)}, {"input", inp}, {"regime", geodlat::pair_regime(E, P, base.a12)}});
+          }
+        } else ctx.count("midpoint.skipped_lon12_180");
         // ---- reversal: m12 unchanged, M12 <-> M21, S12 negated (documented alternatives where the geodesic is not unique)
         {
           Ctx::Case cs(ctx);
@@ -321,7 +344,7 @@ int main(int argc, char** argv) {
           if (!(e <= 1)) {
             char inp[160]; snprintf(inp, sizeof inp, "%.12g %.12g %.12g %.12g", P.lat1, P.lon1, P.lat2, P.lon2);
             ctx.fail("e" + std::to_string(ei) + "/p" + std::to_string(pi) + "/" + svn + "/reversal", where() + ": reversed segment m12=" + fx(V.m12) + " M12=" + fx(V.M12) + " M21=" + fx(V.M21) + " S12=" + fx(V.S12) + " vs forward m12=" + fx(base.m12) + " M12=" + fx(base.M12) + " M21=" + fx(base.M21) + " S12=" + fx(base.S12),
-                     {{"kind", em > 1 ? "reversal-m12" : (eM > 1 ? "reversal-M" : "reversal-S12")}, {"ell", E.name}, {"solver", svn}, {"family", std::string(1, P.fam)}, {"input", inp}});
+                     {{"kind", em > 1 ? "reversal-m12" : (eM > 1 ? "reversal-M" : "reversal-S12")}, {"ell", E.name}, {"solver", svn}, {"family", std::string(1, P.fam)}, {"input", inp}, {"regime", geodlat::pair_regime(E, P, base.a12)}});
           }
         }
       }
